@@ -138,7 +138,9 @@ func (i *interpreter) syncPoint(what string) {
 func mutexLock(fr *frame, a []value) value {
 	m := fr.mutex(a[0])
 	s := fr.i.sched
+	s.cur.waitOn = m
 	s.block(func() bool { return !m.locked && m.readers == 0 }, "Mutex.Lock")
+	s.cur.waitOn = nil
 	m.locked = true
 	m.owner = s.cur.id
 	s.cur.vc.join(m.vc)
@@ -165,6 +167,7 @@ func mutexUnlock(fr *frame, a []value) value {
 	m.vc = s.cur.vc.copy()
 	s.cur.vc.tick(s.cur.id)
 	s.cur.dropLock(a[0].(*value))
+	s.lockHandoff(m)
 	s.yield("Mutex.Unlock")
 	return nil
 }
